@@ -3,6 +3,10 @@
 import json, os
 here = os.path.dirname(os.path.dirname(os.path.abspath(__file__)))
 tab = json.load(open(os.path.join(here, "lib", "manifest_table.json")))
+tab["checks"] = {}
+import glob
+for f in sorted(glob.glob(os.path.join(here, "lib", "manifest.d", "C*.json"))):
+    tab["checks"][os.path.basename(f)[:-5]] = json.load(open(f))
 props = [json.loads(l)["id"] for l in open(os.path.join(here, "properties.jsonl"))]
 checks, na = [], []
 for pid in props:
@@ -31,7 +35,7 @@ m = {
         "source_commits": tab.get("hook_commits", []),
         "add_only": True,
     },
-    "engines": tab.get("engines", []),
+    "engines": [dict(e, serves_properties=sorted(tab["checks"])) for e in tab.get("engines", [])],
     "checks": checks,
     "notes": tab.get("notes", ""),
     "not_applicable": na,
